@@ -57,7 +57,10 @@ META = {
                      "iterated conversions drift geometrically (1.4e14 eps after 40 round trips on the clean tree); each single conversion of a "
                      "1-ulp-valid element meets every bound",
                      "the last-row warning exists only in mat2SE3 / mat2Sim3 (model lastRowWarnBatch; mat2SO3 / mat2RxSO3 never inspect the last row)"],
-    "assumptions": ["inputs of the round-trip clause are valid elements (unit quaternion to 1 ulp, scale in [1e-3,1e3])",
+    "assumptions": ["OBSERVATION (outside the stated scale range): the rank test of mat2Sim3 / mat2RxSO3 is decided over the whole batch — a valid "
+                    "element with 0 < s ≤ atol raises alone and is accepted next to a larger scale (theorem rank_test_is_batch_level); the round-trip "
+                    "theorems therefore carry 'not every scale of the batch is ≤ atol'",
+                    "inputs of the round-trip clause are valid elements (unit quaternion to 1 ulp, scale in [1e-3,1e3])",
                     "tolerances of check=True for the 'valid inputs never raise' clause are at least 1e-5/1e-5 (float32) — a user "
                     "tolerance below the dtype's rounding level would reject float-rounded valid matrices by design",
                     "Euler round trip: tolerance 16·eps/cos(pitch) — asin/atan2 amplify rounding by 1/cos(pitch) ≤ 50 at the edge "
